@@ -46,6 +46,31 @@ def only_via_miss(chk, rule, q, a_sites, b_sites, start, blocked, what, miss="No
     chk.ok(rule, what, {"earlier": [lib.short(p) for _, _, p in a_sites], "later": [lib.short(p) for _, _, p in b_sites]})
 
 
+def pop_program_rows(F):
+    """decision rows of InterpStack::pop on which the identifier names a stored program: (all rows, rows of an accepted pass-through shape).
+    The value or failure of the referenced program must be what the identifier evaluates to - unchanged."""
+    import symex as _sx, semtables as _st
+    b = F.body(POP)
+
+    class PopPolicy(_st.LogicPolicy):
+        max_paths = 800
+
+        def stub(self, interp, st, path, c, args, t, caller):
+            for nm in ("run_raw", "get_type_by_name", "get_param_by_name", "get_program"):
+                if path.endswith("::" + nm):
+                    return [(st, ("call", nm, tuple(args[1:]), "R"))]
+            return None
+    it_ = _sx.Interp(F, PopPolicy())
+    hit_rows = []
+    for st_, r_ in it_.run(b, [_sx.U("self", b.local_ty(1))]):
+        if any(c[0] == "variant" and c[2] == "Some" and str(c[3]).startswith("get_program(") for c in st_.cond):
+            hit_rows.append(_sx.render(_sx.deep(st_, r_)))
+    RUNP = r"run_raw\(Program::bytecode\(get_program\([^()]*\)\.Some\.0\), 1\)"
+    okp = [r_ for r_ in hit_rows if re.match(r"^Result::map\(%s, closure#\d+\)$" % RUNP, r_) or re.match(r"^Result::Ok\((?:\w+::)*\w+\(%s\.Ok\.0\)\)$" % RUNP, r_)
+           or re.match(r"^Result::Err\(%s\.Err\.0\)$" % RUNP, r_) or re.match(r"^%s$" % RUNP, r_)]
+    return hit_rows, okp
+
+
 def run(chk, tier):
     F = lib.get_facts()
     chk.rule("R12.1", "InterpStack::pop resolves an identifier as type, then variable, then stored program (same interpreter, resolve=true), else Binding error; each later step only on the miss edge of the earlier")
@@ -91,6 +116,13 @@ def run(chk, tier):
                 chk.bad("R12.1", "pop|all-miss", "missing program does not end in the Binding error", b.file)
             else:
                 chk.ok("R12.1", "pop|all-miss is Binding")
+    hit_rows, okp = pop_program_rows(F)
+    if hit_rows and len(okp) == len(hit_rows):
+        chk.ok("R12.1", "pop|program result passed on unchanged", hit_rows[0][:100])
+    else:
+        chk.bad("R12.1", "pop|program result passed on unchanged", "an identifier that names a stored program must evaluate to exactly what that program yields - value or failure, unchanged "
+                                                                    "(a re-wrapped failure changes its class: an absent field inside the referenced program stops being absent for has / coalesce); found %s"
+                % [r_[:140] for r_ in hit_rows if r_ not in okp][:2], b.file)
     for (i, t, p) in rr:
         o = q.origin(t["args"][0])
         same = o[0] == "param" and o[1] == 1 and {"f": 1} in o[2]
